@@ -1,4 +1,5 @@
 """C15 -- time-sync estimates right, wait advice sane (structural part)."""
+import re
 from .lib import *
 from .cfg import cfg_of, callee_matches
 from .sem import key, dnf_str
@@ -36,7 +37,9 @@ def o1(W, ob):
         ob.check(gate and cadence, 'check_wait_recommendation|gate', 'a recommendation is raised only while frames_ahead >= 3 and current_frame > next_recommended_sleep',
                  'WaitRecommendation is raised under `%s`' % dnf_str(g)[:200], where(f, s.line))
         v = key(cx.expr_operand(s.rv.ops[0]))
-        ob.check(v == 'self.frames_ahead', 'check_wait_recommendation|skip_frames', 'skip_frames carries frames_ahead', 'skip_frames := %s' % v, where(f, s.line))
+        # `unsigned_abs` / `as u32` of a value the gate has shown to be >= 3 is that value
+        okv = v == 'self.frames_ahead' or (gate and v in ('num::unsigned_abs(self.frames_ahead)', 'unsigned_abs(self.frames_ahead)', 'i32::unsigned_abs(self.frames_ahead)'))
+        ob.check(okv, 'check_wait_recommendation|skip_frames', 'skip_frames carries frames_ahead', 'skip_frames := %s' % v, where(f, s.line))
         st = stores_in(W, f, 'next_recommended_sleep')
         cfg = cfg_of(f)
         ok = len(st) == 1 and key(cx.expr_rvalue(st[0]['site'].rv)) == '(self.sync_layer.current_frame Add RECOMMENDATION_INTERVAL)' and \
@@ -116,7 +119,7 @@ def o2(W, ob):
         ob.check(v == 'arg2.ping', 'on_quality_report|pong', 'the reply echoes the ping', 'QualityReply.pong := %s' % v, where(r, x.line))
     q = W.fn(UDP + '::on_quality_reply')
     st = stores_in(W, q, 'round_trip_time')
-    ok = len(st) == 1 and 'saturating_sub(' in key(W.ctx(q).expr_rvalue(st[0]['site'].rv)) and 'arg2.pong' in key(W.ctx(q).expr_rvalue(st[0]['site'].rv))
+    ok = len(st) == 1 and re.match(r'^(?:\w+::)*saturating_sub\((?:\w+::)*millis_since_epoch\(\), arg2\.pong\)$', key(W.ctx(q).expr_rvalue(st[0]['site'].rv))) is not None
     ob.check(ok, 'on_quality_reply|rtt', 'round_trip_time = now saturating-minus pong', 'round_trip_time is not computed with saturating_sub from the echoed pong', where(q))
     # sibling rule: every difference of wall-clock readings saturates (the clock may step backwards)
     nsub = 0
@@ -158,7 +161,9 @@ def o2(W, ob):
     av = W.fn('TimeSync::average_frame_advantage')
     e = W.ctx(av).expr_place(__import__('rules.facts', fromlist=['Place']).Place({'l': 0, 'p': []}))
     k = key(e)
-    ob.check('remote' in k and 'local' in k and k.index('remote') < k.index('local') and 'Div' in k, 'average_frame_advantage|meet-in-the-middle',
+    ob.check(re.sub(r'\s+', ' ', k) in ('(((Iterator::sum(self.remote[*]) Div len(self.remote)) Sub (Iterator::sum(self.local[*]) Div len(self.local))) Div 2f32)',
+                                          '((Iterator::sum(self.remote[*]) Div len(self.remote)) Sub (Iterator::sum(self.local[*]) Div len(self.local))) Div 2f32') or
+             ('remote' in k and 'local' in k and k.index('remote') < k.index('local') and k.count('Div') == 3 and k.count('Sub') == 1 and k.rstrip(')').endswith('Div 2f32') and 'Mul' not in k and 'Add' not in k), 'average_frame_advantage|meet-in-the-middle',
              'average_frame_advantage = (remote_avg - local_avg) / 2', 'average_frame_advantage returns `%s`' % k[:160], where(av))
     u = W.fn(UDP + '::update_local_frame_advantage')
     st = stores_in(W, u, 'local_frame_advantage')
@@ -174,6 +179,8 @@ from . import initial
 
 from . import casts
 
+from . import mustcall
+
 OBLIGATIONS = [
     ('C15.O1', 'the recommendation', 'WaitRecommendation has one constructor, guarded by frames_ahead >= 3 and current > next_recommended_sleep, carrying frames_ahead, '
      're-arming next_recommended_sleep = current + 60 on the same path; frames_ahead is refreshed from max_frame_advantage (max over connected players).', o1),
@@ -181,4 +188,5 @@ OBLIGATIONS = [
      'is stored unconditionally and answered; RTT saturates; time-sync samples and the meet-in-the-middle average keep their shape.', o2),
     ('C15.I', 'initial state', 'every constructor gives the fields this property\'s rules interpret (NULL_FRAME = none / nothing yet, 0 = first frame, latches open, typestate start) the value listed in tables/initial_state.json; every field compared with NULL_FRAME anywhere is listed; see rules/initial.py', initial.rule_for('C15')),
     ('C15.C', 'lossy integer casts', 'every sign-changing cast (signed -> unsigned; NULL_FRAME is -1) and every narrowing cast to < 32 bits or from 128 bits in the crate is in range by a dominating guard, by the shape of its operand, or listed with a reason in tables/casts.json; see rules/casts.py', casts.rule),
+    ('C15.M', 'must-call floor', 'the calls listed for this property in tables/must_call.json are made on every path from the entry of their function to a normal return (interprocedural must-call): a new early return, fast path or extra condition in front of one of them is reported; see rules/mustcall.py', mustcall.rule_for('C15')),
 ]
